@@ -60,6 +60,25 @@ var outParams = map[string]map[string]string{
 	"roundAddOne":                 {"b": "in-out coefficient", "diff": "in-out exponent adjustment"},
 }
 
+// outParamPos: the same out-parameters by position (index into Params, receiver first), so that a renamed
+// parameter keeps its role.
+var outParamPos = map[string]map[int]bool{
+	"(*BigInt).QuoRem":            {3: true},
+	"(*BigInt).DivMod":            {3: true},
+	"(*BigInt).GCD":               {1: true, 2: true},
+	"(*BigInt).inner":             {1: true},
+	"(*BigInt).innerOrNil":        {1: true},
+	"(*BigInt).innerOrAlias":      {1: true},
+	"(*BigInt).innerOrNilOrAlias": {1: true},
+	"(*Decimal).Modf":             {1: true, 2: true},
+	"(*Decimal).setBig":           {1: true},
+	"upscale":                     {2: true},
+	"tableExp10":                  {1: true},
+	"exp10":                       {1: true},
+	"setBigWithPow":               {0: true},
+	"roundAddOne":                 {0: true, 1: true},
+}
+
 // Methods of Context / ErrDecimal whose first *Decimal parameter is NOT a
 // destination.
 var firstDecimalIsOperand = map[string]string{
@@ -110,7 +129,7 @@ func (w *World) roles(f *ssa.Function) []Role {
 		switch {
 		case isContextPtr(t):
 			out[i] = RoleContext
-		case outParams[name] != nil && outParams[name][p.Name()] != "" && !isRecv:
+		case outParams[name] != nil && (outParams[name][p.Name()] != "" || outParamPos[name][i]) && !isRecv:
 			out[i] = RoleDest
 		case isRecv && isDecimalPtr(t):
 			if returnsRecvType(f) || decimalMutators[f.Name()] != "" {
@@ -154,4 +173,26 @@ func returnsRecvType(f *ssa.Function) bool {
 		return false
 	}
 	return types.Identical(res.At(0).Type(), f.Signature.Recv().Type())
+}
+
+// destName: the name the destination parameter of f has in the source (the rules that render addresses as
+// text compare with it instead of with the conventional "d").
+func (w *World) destName(f *ssa.Function) string {
+	di := destArgIndex(w, f)
+	if di >= 0 && di < len(f.Params) {
+		return f.Params[di].Name()
+	}
+	return "d"
+}
+
+// operandNames: the names of the Decimal operands of f, in order.
+func (w *World) operandNames(f *ssa.Function) []string {
+	di := destArgIndex(w, f)
+	var out []string
+	for i, p := range f.Params {
+		if i != di && isDecimalPtr(p.Type()) {
+			out = append(out, p.Name())
+		}
+	}
+	return out
 }
